@@ -101,6 +101,15 @@ var sharedFilterError = &pongo2.Error{Sender: "filter:vsharederr", OrigError: er
 
 func resetSharedError() {
 	*sharedFilterError = pongo2.Error{Sender: "filter:vsharederr", OrigError: sharedFilterError.OrigError}
+	*sharedTagError = pongo2.Error{Sender: "tag:vboom", OrigError: sharedTagError.OrigError}
+}
+
+var sharedTagError = &pongo2.Error{Sender: "tag:vboom", OrigError: errors.New("boom")}
+
+type vboomNode struct{}
+
+func (vboomNode) Execute(ctx *pongo2.ExecutionContext, w pongo2.TemplateWriter) *pongo2.Error {
+	return sharedTagError
 }
 
 var regOnce sync.Once
@@ -113,6 +122,10 @@ func register() {
 				return nil, sharedFilterError
 			}
 			return in, nil
+		})
+		// a tag of the application that fails with ONE error object
+		pongo2.RegisterTag("vboom", func(doc *pongo2.Parser, start *pongo2.Token, args *pongo2.Parser) (pongo2.INodeTag, *pongo2.Error) {
+			return vboomNode{}, nil
 		})
 		pongo2.RegisterTag("vshared", func(doc *pongo2.Parser, start *pongo2.Token, args *pongo2.Parser) (pongo2.INodeTag, *pongo2.Error) {
 			return vsharedNode{}, nil
@@ -308,6 +321,7 @@ func programs() []prog {
 		{name: "for", src: `{% for i in l %}{{ i }}{{ forloop.Last }}{% empty %}e{% endfor %}`, body: func(in string) string { return "{% for i in l %}" + in + "{% endfor %}" }},
 		{name: "if", src: `{% if flag %}y{% else %}n{% endif %}`, body: func(in string) string { return "{% if flag %}" + in + "{% else %}" + in + "{% endif %}" }},
 		{name: "with", src: `{% with z=n %}{{ z }}{% endwith %}`, body: func(in string) string { return "{% with z=n %}" + in + "{% endwith %}" }},
+		{name: "with-rotation", src: `{% with n=s s=flag flag=n %}{{ n }}{{ s }}{{ flag }}{% endwith %}{% with s as n n as s %}{{ n }}{{ s }}{% endwith %}`},
 		{name: "set", src: `{% set z = n + 1 %}{{ z }}`},
 		{name: "macro", src: `{% macro m(p, q=n) %}<{{ p }}{{ q }}>{% endmacro %}{{ m(s) }}{{ m(1, 2) }}`, body: func(in string) string { return "{% macro mb() %}" + in + "{% endmacro %}{{ mb() }}{{ mb() }}" }},
 		{name: "import", src: `{% import "lib" lm %}{{ lm(s) }}`, files: lib},
@@ -317,6 +331,7 @@ func programs() []prog {
 		{name: "include", src: `{% include "inc" %}{% include "inc" with n=7 only %}`, files: inc},
 		{name: "include-lazy", src: `{% for i in l %}{% include name %}{% endfor %}`, files: inc},
 		{name: "ssi", src: `{% ssi "inc" %}{% ssi "inc" parsed %}`, files: inc},
+		{name: "ssi-in-autoescape-off", src: `{% autoescape off %}[{% ssi "inc" parsed %}{{ s }}]{% include "inc" %}{% endautoescape %}{{ s }}`, files: inc},
 		{name: "extends", src: `{% extends "base" %}{% block c %}child{{ block.Super }}{% cycle "1" "2" %}@FAIL@{% endblock %}`, files: base, once: true},
 		{name: "extends3", once: true, src: `{% extends "mid" %}{% block d %}Cd{{ n }}@FAIL@{% endblock %}`, files: map[string]string{"/mid": `{% extends "base3" %}{% block c %}M({{ block.Super }}){% endblock %}`, "/base3": `[{% block c %}G{{ s }}{% endblock %}|{% block d %}d{% endblock %}]`}},
 		{name: "block-twice", once: true, src: `{% block b %}blk{{ n }}{% endblock %}@FAIL@|{% block bb %}{{ s }}{% endblock %}`},
@@ -341,6 +356,7 @@ func programs() []prog {
 		{name: "filter-error-slice", src: "{% if flag %}{{ l|slice:\"x\" }}{% else %}\n\n\n{{ l|slice:\"1:2:3\" }}{% endif %}"},
 		{name: "filter-error-pluralize-args", src: "{% if flag %}{{ n|pluralize:\"a,b,c\" }}{% else %}\n\n {{ n|pluralize:\"a,b,c\" }}{% endif %}"},
 		{name: "filter-error-shared-object", src: "{% if flag %}{{ s|vsharederr }}{% else %}\n\n   {{ s|vsharederr }}x{{ \"y\"|vsharederr }}{% endif %}"},
+		{name: "tag-error-shared-object", src: "{% macro mb2() %}{% vboom %}{% endmacro %}{% if flag %}{{ mb2() }}{% else %}\n\n {% vboom %}{% endif %}"},
 		{name: "macro-deep", src: "{% macro r(k) %}{% if k > 0 %}{{ r(k - 1) }}{% endif %}{% endmacro %}{{ r(600) }}{{ n }}"},
 		{name: "import-deep", src: "{% import \"deeplib\" r %}{{ r(600) }}{{ n }}", files: map[string]string{"/deeplib": "{% macro r(k) export %}{% if k > 0 %}{{ r(k - 1) }}{% endif %}{% endmacro %}"}},
 		{name: "slice-negative", src: `{{ l|slice:"-2:"|join:"," }}|{{ l|slice:":-1"|join:"," }}|{{ l|slice:"2:"|join:"," }}|{{ s|slice:"-1:" }}|{{ s|slice:"1:5" }}|{{ l|slice:"-5:-1"|join:"," }}`},
